@@ -533,3 +533,42 @@ func (e *Eng) serializerReuse() {
 			fmt.Sprintf("value carried over: %s | benign: %s", strings.Join(bad, "; "), strings.Join(benign, "; ")))
 	}
 }
+
+// initializeResets (C15): every buffer a reused parser object carries over is truncated or replaced on EVERY path
+// through initialize (the later appends in stage 2 go through &pj.ParsedJson, which the reads-before-writes analysis of
+// parseMessage does not follow).
+func (e *Eng) initializeResets() {
+	fn := e.fn("(*internalParsedJson).initialize")
+	if fn == nil || len(fn.Params) == 0 {
+		return
+	}
+	recv := ssa.Value(fn.Params[0])
+	var missing []string
+	for _, need := range [][]string{{"ParsedJson.Tape"}, {"ParsedJson.Strings", "ParsedJson.Strings.B"}, {"containingScopeOffset"}, {"indexesChan"}} {
+		nd := need
+		isSet := func(in ssa.Instruction) bool {
+			st, ok := in.(*ssa.Store)
+			if !ok {
+				return false
+			}
+			p, ok := fieldPath(st.Addr, recv)
+			if !ok {
+				return false
+			}
+			for _, w := range nd {
+				if p == w {
+					return true
+				}
+			}
+			return false
+		}
+		if r, _ := reachWithout(ipos{fn.Blocks[0], -1}, isReturn(), isSet); r {
+			missing = append(missing, nd[len(nd)-1])
+		}
+	}
+	detail := "Tape, Strings(.B), containingScopeOffset and indexesChan are assigned on every path through initialize"
+	if len(missing) > 0 {
+		detail = "a path through initialize leaves these carried over from the previous parse: " + strings.Join(missing, ", ")
+	}
+	e.add("reuse#initialize-resets-buffers", funcKey(fn), []string{"C15"}, len(missing) == 0, detail)
+}
